@@ -30,14 +30,14 @@ def shards(tier):
         {"name": "big.np.jit", "mode": "jit", "backend": "np", "fn": "big", "n": 1 if q else 12},
         {"name": "big.torch", "mode": "jit", "backend": "torch", "fn": "big", "n": 1 if q else 3},
         {"name": "forms.torch", "mode": "jit", "backend": "torch", "fn": "rand", "n": 50 if q else 1500, "forms": 1},
-        {"name": "n2.torch", "mode": "jit", "backend": "torch", "fn": "n2", "lo": 0, "hi": 11520, "stride": 24 if q else 2},
-        {"name": "n2.np.interp", "mode": "interp", "backend": "np", "fn": "n2", "lo": 0, "hi": 11520, "stride": 12 if q else 2},
+        {"name": "n2.torch", "mode": "jit", "backend": "torch", "fn": "n2", "lo": 0, "hi": 11520, "stride": 24 if q else 6},
+        {"name": "n2.np.interp", "mode": "interp", "backend": "np", "fn": "n2", "lo": 0, "hi": 11520, "stride": 12 if q else 6},
     ]
     nsh = 8
     per = 11520 // nsh
     for k in range(nsh):
         out.append({"name": "n2.np.jit.%d" % k, "mode": "jit", "backend": "np", "fn": "n2", "lo": k * per, "hi": (k + 1) * per,
-                    "partners": 3 if q else 40})
+                    "partners": 3 if q else 10})
     return out
 
 
